@@ -92,14 +92,18 @@ def assigned_names(body):
 class Snapshot:
     """Values of the locals and ghost counters at loop entry (s.at_entry.<name>)."""
 
-    def __init__(self, values):
+    def __init__(self, values, rename=None):
         object.__setattr__(self, "_values", values)
+        object.__setattr__(self, "_rename", rename or {})
 
     def __getattr__(self, name):
         try:
             return self._values[name]
         except KeyError:
-            raise AttributeError(name)
+            new = self._rename.get(name) if self._rename else None
+            if new is not None and new in self._values:
+                return self._values[new]
+            raise OutOfReach(f"the loop annotation refers to the local variable '{name}', which the current code of the function does not have")
 
 
 class LoopState:
@@ -119,10 +123,24 @@ class LoopState:
             return v
         if name in self._I.ctx.ghost:
             return self._I.ctx.ghost[name]
-        raise AttributeError(name)
+        new = self._renamed(name)
+        if new is not None:
+            found, v = self._env.lookup(new)
+            if found:
+                return v
+        raise OutOfReach(f"the loop annotation refers to the local variable '{name}', which the current code of the function does not have")
+
+    def _renamed(self, name):
+        from .program import rename_map
+
+        fr = self._I.frames[-1] if self._I.frames else None
+        return rename_map(fr.fi).get(name) if fr is not None else None
 
     def has(self, name):
-        return name in self._extra or self._env.lookup(name)[0]
+        if name in self._extra or self._env.lookup(name)[0]:
+            return True
+        new = self._renamed(name)
+        return new is not None and self._env.lookup(new)[0]
 
 
 def havoc_like(I, v, name):
@@ -311,7 +329,17 @@ def _annotated(I, node, env, ann, fname, k, kind, iterable=None):
             snap.setdefault(k_, v_)
         e_ = e_.parent
     snap.update(ctx.ghost)
-    entry = Snapshot(snap)
+    from .program import rename_map
+
+    rmap = rename_map(I.frames[-1].fi)
+    entry = Snapshot(snap, rmap)
+    if rmap:
+        # annotation keys (havoc rules, modifies) name locals of the reference tree
+        ann = dict(ann)
+        if ann.get("havoc"):
+            ann["havoc"] = {rmap.get(k, k): v for k, v in ann["havoc"].items()}
+        if ann.get("modifies"):
+            ann["modifies"] = [rmap.get(k, k) for k in ann["modifies"]]
     st = LoopState(I, env, hidden, entry)
     if ann.get("invariant") is not None:
         inv0 = ann["invariant"](st)
